@@ -647,9 +647,9 @@ fn parse_pre_ms_2023_trade_confirmations(
     let trade_pat = regex::Regex::new(concat!(
         r"(?P<txdate>\d+/\d+/\d+)\s+(?P<sdate>\d+/\d+/\d+)\s+",
         r"(?P<mkt>\d+)\s*(?P<cpt>\d+)\s+",
-        r"(?P<sym>\S+)\s+(?P<act>\S+)\s+(?P<nshares>\d+)\s+\$(?P<price>\d+\.\d+)[^\n]*\n",
-        r"[^\n]*(COMMISSION\s+\$(?P<commission>\d+\.\d+)[^\n]*\n)?",
-        r"[^\n]*(FEE\s+\$(?P<fee>\d+\.\d+)[^\n]*\n)?",
+        r"(?P<sym>\S+)\s+(?P<act>\S+)\s+(?P<nshares>[\d,]+)\s+\$(?P<price>[\d,]+\.\d+)[^\n]*\n",
+        r"[^\n]*(COMMISSION\s+\$(?P<commission>[\d,]+\.\d+)[^\n]*\n)?",
+        r"[^\n]*(FEE\s+\$(?P<fee>[\d,]+\.\d+)[^\n]*\n)?",
         r"[^\n]*NET\s+AMOUNT"),
     ).unwrap();
 
@@ -682,6 +682,13 @@ fn parse_pre_ms_2023_trade_confirmations(
             filename: Some(get_filename(filepath)),
         });
     }
+    if txs.is_empty() {
+        // Recognized as a trade confirmation, so it must contain at least one trade.
+        return Err(format!(
+            "Found no trades in trade confirmation {}",
+            get_filename(filepath)
+        ));
+    }
     Ok(txs)
 }
 
@@ -698,8 +705,8 @@ fn parse_post_ms_2023_trade_confirmation(
 
     let trade_pat = regex::Regex::new(concat!(
         r"Trade\s+Date\s+Settlement\s+Date\s+Quantity\s+Price\s+Settlement\s+Amount\s+",
-        r"(?P<txdate>\d+/\d+/\d+)\s+(?P<sdate>\d+/\d+/\d+)\s+(?P<nshares>\d+)\s+",
-        r"(?P<price>\d+\.\d+)\s+",
+        r"(?P<txdate>\d+/\d+/\d+)\s+(?P<sdate>\d+/\d+/\d+)\s+(?P<nshares>[\d,]+)\s+",
+        r"(?P<price>[\d,]+\.\d+)\s+",
         r"Transaction\s+Type:\s*(?P<act>\S.*\S)\s*",
         r"Description.*\n.*ISIN:\s*(?P<sym>\S+)",
         r"([\s\S]*Commission\s+\$(?P<commission>\d+\.\d+))?",
